@@ -776,5 +776,27 @@ theorem ann_monitor_accepts_model (compat : Bool) (a : ToolAnn) : annMonitor com
     simp [annMonitor, hb, hp]
   · simp [annMonitor, hb]
 
+/-! ## capabilities clones -/
+
+theorem aliasCount_zero (v : CSlots) (h : Heap) (hw : wfSlots v h) (x : JVal) : aliasCount v h x = 0 := by
+  unfold aliasCount
+  have h1 : (cloneV v h).1.filter (showsInOriginal v h x) = [] := by
+    rw [List.filter_eq_nil_iff]
+    intro s hs
+    cases s with
+    | none => simp [showsInOriginal]
+    | some a => simp [showsInOriginal, clone_no_alias v h hw a x hs]
+  have h2 : v.filter (showsInClone v h x) = [] := by
+    rw [List.filter_eq_nil_iff]
+    intro s hs
+    cases s with
+    | none => simp [showsInClone]
+    | some a => simp [showsInClone, clone_no_alias_rev v h hw a x hs]
+  rw [h1, h2]; rfl
+
+theorem clone_monitor_accepts_model (v : CSlots) (h : Heap) (hw : wfSlots v h) (x : JVal) :
+    cloneMonitor (modelClone v h x) = none := by
+  simp [cloneMonitor, modelClone, clone_same_encoding v h hw, aliasCount_zero v h hw x]
+
 end Mon
 end Wire
